@@ -300,9 +300,106 @@ def run_binary(ctx, count, idx):
     ctx.sample({"family": "binary", "file_names": FILE_NAMES[:6]}, limit=1)
 
 
+def run_generators(ctx, count, idx):
+    """Diagnostics that stem from failing generators are diagnostics like any other: emitted once each, in generator order, after
+    the compiler's own, and counted by the summary and the exit status - whatever the position of the failing generator."""
+    from .. import genrun, wire
+    rng = ctx.rng("gen/%d" % idx)
+    root = os.path.join(ctx.tmpdir(), "gens%d" % idx)
+    os.makedirs(root, exist_ok=True)
+    for n in range(count):
+        gc = genrun.GenCase(ctx, root, "g%d" % n)
+        warn = rng.random() < 0.5
+        gc.write("a.slice", "module M\n[deprecated] struct D {}\nstruct S { a: D }\n" if warn else "module M\nstruct S { a: bool }\n")
+        lineup = [rng.choice(["ok", "ok", "exit1", "missing", "stderr", "badreply", "replykill"]) for _ in range(rng.randint(1, 4))]
+        argv = ["a.slice"]
+        expected = []       # paths of the generators that must be reported, in order
+        for gi, g in enumerate(lineup):
+            if g == "missing":
+                path = "./no-such-generator-%d" % gi
+            elif g == "badreply":
+                path = gc.add_generator("ok", b"\x01\x02", tag="bad%d" % gi)
+            else:
+                path = gc.add_generator(g, wire.enc_reply([("out%d.txt" % gi, "x\n")]), tag="t%d" % gi)
+            if g != "ok":
+                expected.append(path)
+            argv += ["-G", path]
+        fmt = rng.choice(["human", "human", "json"])
+        if "stderr" in lineup:
+            # what a generator writes to its stderr is forwarded verbatim by design (collect_plugin_output); those bytes are the
+            # generator's, not diagnostics, so that behaviour is only used where they cannot be mistaken for any
+            fmt = "human"
+        allow = rng.choice([[], [], ["Deprecated"], ["All"]])
+        for a in allow:
+            argv += ["-A", a]
+        if fmt == "json":
+            argv += ["--diagnostic-format", "json"]
+        argv.append("--disable-color")
+        res = gc.run(argv)
+        ctx.note_case(("gens", tuple(lineup), warn, fmt, tuple(allow)))
+        replay = {"kind": "binary", "argv": argv, "generators": lineup, "files": {"a.slice": "..."}, "observed": res.brief()}
+        try:
+            if res.timed_out:
+                ctx.inconclusive.append({"why": "watchdog"})
+                continue
+            crash = res.crashed()
+            if crash:
+                p = core.stderr_panic(res.stderr) or {"message": str(crash), "location": "?"}
+                ctx.violate(core.panic_signature(p) if p["location"] != "?" else "crash:emission", "crashed: %s" % crash, replay)
+                continue
+            ctx.stats["generator_lineups"] += 1
+            err = res.stderr.decode("utf-8", "replace")
+            out = res.stdout.decode("utf-8", "replace")
+            nw = 1 if warn and not allow else 0
+            if fmt == "json":
+                objs = []
+                bad = False
+                for line in err.splitlines():
+                    try:
+                        objs.append(json.loads(line))
+                    except ValueError:
+                        bad = True
+                if bad:
+                    ctx.violate("json-line-not-an-object:generators", "a stderr line is not a JSON object: %r" % err[:300], replay)
+                    continue
+                shown_e = [o for o in objs if o.get("severity") == "error"]
+                shown_w = [o for o in objs if o.get("severity") == "warning"]
+                named = [re.search(r"code-generator '([^']*)'", o["message"]) for o in shown_e]
+            else:
+                shown_e = re.findall(r"^error \[(\w+)\]: (.*)$", err, flags=re.M)
+                shown_w = re.findall(r"^warning \[(\w+)\]", err, flags=re.M)
+                named = [re.search(r"code-generator '([^']*)'", m[1]) for m in shown_e]
+            got = [m.group(1) if m else None for m in named]
+            if got != expected:
+                ctx.violate("generator-errors-differ", "errors name generators %r, the failing ones are %r (line-up %r)" % (got, expected, lineup), replay)
+                continue
+            if len(shown_w) != nw:
+                ctx.violate("generator-run-warnings-differ", "%d warnings shown, %d expected" % (len(shown_w), nw), replay)
+                continue
+            if fmt == "human":
+                mw = re.search(r"^Warnings: Compilation generated (\d+) warning\(s\)$", out, flags=re.M)
+                me = re.search(r"^Failed: Compilation failed with (\d+) error\(s\)$", out, flags=re.M)
+                gw = int(mw.group(1)) if mw else 0
+                ge = int(me.group(1)) if me else 0
+                ctx.stats["summaries_checked"] += 1
+                if (gw, ge) != (nw, len(expected)):
+                    ctx.violate("summary-counts:generators", "summary says %d warning(s) / %d error(s); %d / %d diagnostics are shown (line-up %r)"
+                                % (gw, ge, nw, len(expected), lineup), replay)
+                    continue
+            elif out.strip():
+                ctx.violate("json-format-writes-summary", "stdout is not empty in JSON format: %r" % out[:200], replay)
+                continue
+            if (res.status != 0) != bool(expected):
+                ctx.violate("exit-status-vs-totals:generators", "exit status %r with %d failing generator(s) (line-up %r)" % (res.status, len(expected), lineup), replay)
+        finally:
+            gc.cleanup()
+
+
 def run_shard(ctx, spec):
     if spec[0] == "library":
         run_library(ctx, spec[1], spec[2])
+    elif spec[0] == "generators":
+        run_generators(ctx, spec[1], spec[2])
     else:
         run_binary(ctx, spec[1], spec[2])
 
@@ -310,7 +407,9 @@ def run_shard(ctx, spec):
 def plan(tier, seed):
     n = 5000 if tier == "quick" else 50000
     m = 2500 if tier == "quick" else 20000
-    return [("library", n // 16, i) for i in range(16)] + [("binary", m // 16, i) for i in range(16)]
+    g = 800 if tier == "quick" else 8000
+    return ([("library", n // 16, i) for i in range(16)] + [("binary", m // 16, i) for i in range(16)]
+            + [("generators", g // 8, i) for i in range(8)])
 
 
 def main(tier, seed):
@@ -322,10 +421,14 @@ def main(tier, seed):
               "attribute errors, doc-comment defects, DuplicateFile without span; user text with quotes, backslashes, control "
               "characters, U+2028, emoji) x -A list; library family: emitter output into a buffer in both formats vs the returned "
               "diagnostics; binary family: real files with hostile names x {human, json} x {--disable-color, CLICOLOR_FORCE, default}. "
-              "distinct_nontrivial = distinct (program, options)"),
+              "generator family: 1-4 generators drawn from {ok, exit 1, missing, stderr output, undecodable reply, killed after reply} "
+              "after a clean or warnings-only compile: one E001 per failing generator, in order, counted by the summary and the "
+              "exit status. distinct_nontrivial = distinct (program, options)"),
         required={"library_programs": 300, "binary_runs": 200, "json_diagnostics_compared": 1000, "human_diagnostics_compared": 1000,
                   "suppressed_diagnostics": 100, "diagnostics_with_notes": 100, "diagnostics_without_span": 10,
-                  "summaries_checked": 50, "colour_disabled_runs": 50, "suppressed_markers_checked": 50},
+                  "summaries_checked": 50, "colour_disabled_runs": 50, "suppressed_markers_checked": 50, "generator_lineups": 500},
         assumptions=["file names containing line breaks are used with the JSON format only",
+                     "bytes a generator writes to its own stderr are forwarded verbatim by design and are not diagnostics: 'nothing "
+                     "else is written' is judged on runs whose generators keep their stderr empty",
                      "a suppressed lint's text may still be visible inside a source snippet of another diagnostic (human format)"],
     )
